@@ -137,8 +137,14 @@ pub async fn send_appointment(
                 r.start_block,
                 r.signature.clone(),
             );
+            // A signature no key can be recovered from is not a tower reply we can make anything of (nor a proof of anything)
             let recovered_id = TowerId(
-                cryptography::recover_pk(&receipt.to_vec(), &receipt.signature().unwrap()).unwrap(),
+                cryptography::recover_pk(&receipt.to_vec(), &receipt.signature().unwrap())
+                    .map_err(|e| {
+                        AddAppointmentError::RequestError(RequestError::DeserializeError(format!(
+                            "Cannot recover a key from the appointment receipt signature. Error: {e}"
+                        )))
+                    })?,
             );
             if recovered_id == tower_id {
                 Ok((r, receipt))
